@@ -2,7 +2,7 @@
 from __future__ import annotations
 import copy, json
 import numpy as np
-from ..common import CaseResult, Naming, stable_hash, gauss, rat, close, call, exc_sig, ensure_repo_import
+from ..common import CaseResult, Naming, N_SCHEMES, stable_hash, gauss, rat, close, call, exc_sig, ensure_repo_import
 from ..netbuild import make_element, project_network
 from ..circbuild import make_component, f as fl
 from .c16 import items
@@ -62,7 +62,7 @@ def replay(case, ctx):
     h = stable_hash(sc)
     r = CaseResult(case_id=f'{h:x}')
     r.tags = [f'{fam}:{"accept" if accept else "reject"}']
-    naming = Naming(h % 30)
+    naming = Naming(h % N_SCHEMES)
     stored_ok = True
     detail = ''
 
